@@ -214,7 +214,7 @@ PROPS = {
                        "contexts and the fake API server are environment. Trusted: Lean kernel (+propext, Quot.sound, Classical.choice), the "
                        "hand-written model, the Go harness (incl. its LIST/WATCH gate for the resourceVersion-less fake tracker) and the driver."),
         "technique": "Lean 4 proof (invariants of a transition system, trace-checker soundness) + trace-inclusion / differential correspondence against the real Go code",
-        "domains": ["funnel", "watcher", "watcher-fatal", "watcher-unsched"],
+        "domains": ["funnel", "watcher", "watcher-fatal", "watcher-unsched", "watcher-late"],
         "rule": ("funnel: random programs (1-4 producers, 0-3 events each, add/send/close with seeded delays of 0-0.8 ms, cancellation at a random "
                  "point, optionally slow consumer) run against the real eventFunnel, one case at a time in child processes; a case is non-trivial "
                  "if it has >= 2 producers or >= 2 events. watcher: 6 hand-written reporter configurations + random scripts (2-9 mutation rounds of "
@@ -587,3 +587,11 @@ for _p in ("C18", "C06"):
         "events repeat an earlier one with only that content field changed): afterwards the resource cache must hold the LAST report per object "
         "(status, message, and the object body with its content), the running task must have been told of every event for one of its objects, and "
         "every event is forwarded iff EmitStatusEvents — the cache the wait phases and the apply-time mutator ('source looked up from the reconciled cache') read.")
+
+_LATE = (" watcher-late: the real DefaultStatusWatcher over a dynamic client whose pod LIST is served in 40 slow pages and honours the context it is "
+         "given; the caller's context is cancelled when page 1, 2 or 5 has been requested (i.e. before the watcher has synced), both scopes: the event "
+         "channel must close and no LIST page request may reach the server after it has closed.")
+PROPS["C16"]["rule"] += _LATE
+for _p in ("C12", "C13"):
+    PROPS[_p]["domains"].append("watcher-late")
+    PROPS[_p]["rule"] += _LATE
